@@ -9,8 +9,9 @@ below pin the expansion the specification matcher (`Spec.Match.specExpand`, C17)
 regenerated rules on schematic uses (distinct symbols stand for the sub-forms; `syntax-rules`
 matching is parametric in them): the first half of T01.2. They break when a rule of the prelude
 changes shape or order (e.g. the `case … =>` rule order repaired in c92a4af).
-The second half — evaluating these expansions equals evaluating the form natively in `Spec.Eval` —
-is NOT proved (it needs fuel monotonicity of `Spec.Eval`).
+The general statements (all uses, not instances) are in `Lemmas/EvalDerivedExpand.lean`; the second
+half — evaluating these expansions agrees with evaluating the form natively in `Spec.Eval` — in
+`Lemmas/EvalDerived*.lean` (on top of fuel monotonicity, `Lemmas/EvalMono*.lean`).
 -/
 namespace Marwood.Spec.Eval.Prelude
 open Marwood Marwood.Spec.Match Marwood.Spec.Eval
